@@ -222,11 +222,12 @@ func (a *WALBatchApplier) ApplyEntries(entries []*replication_proto.WALEntry, ap
 		}
 
 		lastAppliedSeq = protoEntry.SequenceNumber
-	}
 
-	// Update tracking
-	a.maxAppliedSeq = lastAppliedSeq
-	a.expectedNextSeq = lastAppliedSeq + 1
+		// Update tracking after every applied entry, so that an error later in
+		// the batch leaves the cursor behind exactly what has been applied
+		a.maxAppliedSeq = lastAppliedSeq
+		a.expectedNextSeq = lastAppliedSeq + 1
+	}
 
 	fmt.Printf("Batch successfully applied. Last sequence: %d, Next expected: %d\n",
 		a.maxAppliedSeq, a.expectedNextSeq)
